@@ -310,8 +310,16 @@ Definition agg_messages (a : aggqc) : list (rid * bytes) :=
   map (fun e => (fst e, timeout_bytes (mkTimeout (fst e) (agg_view a) SigNil SigNil (mkSync (Some (snd e)) None None))))
       (agg_qcs a).
 
-(* Block.ToBytes *)
+(* Block.ToBytes (repaired, fixes/C12-block-bytes-frame-batch.patch): the marshalled batch is preceded by
+   its length (uint32 LE), so that batch and certificate cannot trade bytes *)
 Definition block_bytes (b : block) : bytes :=
+  b_parent b ++ le32 (b_proposer b) ++ le64 (b_view b) ++ le32 (N.of_nat (length (b_batch b))) ++ b_batch b
+  ++ qc_bytes (b_cert b) ++ le64 (ts_nanos (b_ts b)).
+
+(* the encodings before the repairs (kept for the refutation witnesses):
+   - unframed: batch bytes directly followed by the certificate bytes;
+   - old: additionally the certificate bytes without the signer ids *)
+Definition block_bytes_unframed (b : block) : bytes :=
   b_parent b ++ le32 (b_proposer b) ++ le64 (b_view b) ++ b_batch b ++ qc_bytes (b_cert b)
   ++ le64 (ts_nanos (b_ts b)).
 
